@@ -1,23 +1,32 @@
 """C01 - per-channel power always splits exactly into signal + ASE + NLI; 1/GSNR = 1/OSNR_ASE + 1/SNR_NLI.
 
 B1  TLC explores every behaviour of <= MaxDepth ledger operations of MC_PowerLedger (exact rationals) with
-    Conservation, SharesInUnitInterval, GsnrIdentity, MuxDemuxLossless as invariants and DemuxMuxKeepLedger as
-    action property; every action must occur in the emitted behaviours and a witness run shows that a Mux of a
-    spectrum carrying both kinds of noise is reachable.
+    Conservation, SharesInUnitInterval, GsnrIdentity (on every spectrum there is: the driven ones and the twin
+    launched from the same description), MuxDemuxLossless as invariants and DemuxMuxKeepLedger, SourceUntouched,
+    TwinUntouched as action properties; every action must occur in the emitted behaviours and a witness run shows
+    that a Mux of a spectrum carrying both kinds of noise is reachable.
 B2  every behaviour emitted by TLC (exhaustive at the emission depth, sampled deeper) is replayed on a real
-    SpectralInformation built with create_arbitrary_spectral_information and driven through its public methods
-    (apply_attenuation_lin/_db, apply_gain_lin/_db, add_ase, add_nli, demuxed_/muxed_spectral_information);
-    (pch, signal, ase, nli) of every channel are compared after every step with the exact rationals TLC printed.
+    SpectralInformation and driven through its public methods (apply_attenuation_lin/_db, apply_gain_lin/_db,
+    add_ase, add_nli, demuxed_/muxed_spectral_information); (pch, signal, ase, nli) of every channel are compared
+    after every step with the exact rationals TLC printed.  Launch builds TWO spectra from one description, in
+    turn through create_arbitrary_spectral_information (called twice) and through the SpectralInformation
+    constructor handed the SAME per-channel arrays twice (channels in frequency order / in another order); the
+    second spectrum is never driven and is compared after every step with the model's twin, the spectrum a band
+    was extracted from with the model's src.
 B3  real propagate() runs on the shipped networks, recorded per element, are judged by Trace_Propagation:
     Conservation and SharesInUnitInterval on every recorded spectrum, GsnrIdentity on the figures the receiving
-    Transceiver reports, ReportedFromLedger (they are the figures of the spectrum that arrived).
+    Transceiver reports, ReportedFromLedger (they are the figures of the spectrum that arrived).  Besides direct
+    propagate() calls: batches of fixed-mode services through the planning pipeline (compute_path_dsjctn,
+    compute_path_with_disjunction), bidirectional services in both orientations - the receivers of BOTH directions
+    are read from the paths the pipeline returns, when it has returned.
 """
 from harness import propagation_util as pu
 from harness.ledger_util import BOUNDS, model_check, emitted_behaviours, replay, run_b3
 
 C01_MODEL_CLAUSES = ('INVARIANT TypeOK', 'INVARIANT Conservation', 'INVARIANT SharesInUnitInterval',
                      'INVARIANT GsnrIdentity', 'INVARIANT MuxDemuxLossless', 'INVARIANT SourceIsWhole',
-                     'PROPERTY MCDemuxMuxKeepLedger', 'PROPERTY MCSourceUntouched')
+                     'INVARIANT TwinAsLaunched', 'PROPERTY MCDemuxMuxKeepLedger', 'PROPERTY MCSourceUntouched',
+                     'PROPERTY MCTwinUntouched')
 
 
 def run(chk):
